@@ -199,6 +199,9 @@ def run(ctx):
     prop = ctx.prop
     lean, failures, generated, extra = _lean(ctx)
     ctx.log("lean:", "ok" if lean["ok"] else "NOT ok")
+    _ob, _sf = vlib.skeleton_tie(prop, "codec")
+    extra.append(_ob)
+    failures += _sf
 
     def done(corr=None):
         return vlib.result(lean=lean, corr=corr, failures=failures, generated=generated, extra_obligations=extra,
